@@ -31,10 +31,10 @@ func init() {
 }
 
 type apiCall struct {
-	Kind     string
-	call     *Call
-	timeout  time.Duration
-	rows     []readRow
+	Kind    string
+	call    *Call
+	timeout time.Duration
+	rows    []readRow
 }
 
 type readRow struct {
